@@ -160,6 +160,8 @@ func (tmg *TCPMuxGroup) worker() {
 			tmg.acceptCh <- c
 		})
 		if err != nil {
+			// the group has been closed meanwhile: nobody will take this connection
+			c.Close()
 			return
 		}
 	}
